@@ -1,5 +1,6 @@
 import Driver.Proto
 import TongoModel.BitOps
+import TongoModel.CellSeq
 /-! Line handlers for property C06 (bit strings and cell read/write primitives).
 
 `bs.seq <cap> <item;item;…>`     run the items on `NewBitString(cap)`; answer: one result per item, then
@@ -225,7 +226,61 @@ def cellHandler : Handler
     | _, _ => "bad-op"
   | _ => "bad-op"
 
+/-! cell-level sequences over a heap -/
+
+open Tongo.CellSeq in
+private def parseCellStep (tok : String) : Option (Nat × CellOp) :=
+  match tok.splitOn "." with
+  | [t, it] => do
+    let t ← t.toNat?
+    let op ← match it.splitOn ":" with
+      | ["nc"] => some CellOp.newCell
+      | ["ar", c] => c.toNat?.map CellOp.addRef
+      | ["nf"] => some .newRef
+      | ["nr"] => some .nextRef
+      | ["rC"] => some .resetCounters
+      | ["cr"] => some .copyRemaining
+      | ["rz"] => some .refsSize
+      | ["ra"] => some .refsAvailableForRead
+      | ["ba"] => some .bitsAvailableForRead
+      | ["bw"] => some .bitsAvailableForWrite
+      | _ => match parseItem it with
+        | some (.op o) => some (.bit (.op o))
+        | some (.zop z) => some (.bit z)
+        | _ => none
+    pure (t, op)
+  | _ => none
+
+private def parseCellSteps (s : String) : Option (List (Nat × Tongo.CellSeq.CellOp)) :=
+  if s == "-" then some [] else (s.splitOn ";").mapM parseCellStep
+
+private def showRefs (refs : List Nat) (avail : Int) : String :=
+  "[" ++ ",".intercalate (refs.map toString) ++ s!"] {avail}"
+
+private def cellSeqAnswer (rs : List (Outcome Out)) (cells : List String) : String :=
+  let outs := rs.map fun r => showRes (match r with | .ok o => .ok (showOut o.norm) | .err e => .err e | .panic p => .panic p)
+  " ".intercalate (outs ++ ["|", " / ".intercalate cells])
+
+open Tongo.CellSeq in
+private def cellSeqHandler (spec : Bool) : Handler
+  | [steps] => match parseCellSteps steps with
+    | some ops =>
+      if spec then
+        if ops.all (fun p => decide p.2.WF) then
+          let (rs, g) := runAll specI ops initSpec
+          cellSeqAnswer rs (g.map fun c => showIdeal c.bits ++ " " ++ showRefs c.refs ((c.refs.length : Int) - c.refCursor))
+        else "bad-op"
+      else
+        let (rs, h) := runAll implI ops initImpl
+        let panicked := rs.any fun r => match r with | .panic _ => true | _ => false
+        if panicked then cellSeqAnswer rs ["panic"]
+        else cellSeqAnswer rs (h.map fun c => showState c.bits ++ " " ++ showRefs c.refs ((c.refs.length : Int) - c.refCursor))
+    | none => "bad-op"
+  | _ => "bad-op"
+
 def opsC06 : List (String × Handler) := [
+  ("bs.cellseq", cellSeqHandler false),
+  ("bs.cellspec", cellSeqHandler true),
   ("bs.seq", seqHandler),
   ("bs.spec", specHandler),
   ("bs.grid", gridHandler),
